@@ -12,7 +12,7 @@ CONSTANTS
   Dev_cind = TRUE
   Dev_osrep = TRUE
   Dev_dparr = TRUE
-  DocIds = {"D1", "D2", "D3", "D4", "D5", "D6", "D7", "D8"}
+  DocIds = {"D1", "D2", "D3", "D4", "D5", "D6", "D7", "D8", "D9"}
   V2Lens = {40, 64, 128}
   V4Stm = {"RC4", "AES128", "Identity"}
   V4Str = {"RC4", "AES128", "Identity"}
